@@ -452,7 +452,7 @@ def gen_mlp(p, k, npts):
     # model kinds as before), UserDefinedLikelihood with ('user') / without ('user-nograd') gradient_func, an evaluated
     # density (constant); several kinds mixed, the user-defined one first / in the middle / last
     LIKS = ("matrix/jac", "matrix/funadj/dirjac", "jac/pde-jac", "matrix/nograd", "jac/jac",
-            "matrix/user", "user/jac", "matrix/user/jac", "jac/funadj/user", "matrix/user/user", "user/user", "matrix/user-nograd")
+            "matrix/user", "user/jac", "matrix/user/jac", "matrix/user/user", "user/user", "matrix/user-nograd")
     for prior in ("gaussian", "gmrf", "cauchy", "uniform", "beta", "normal"):
         for liks in LIKS:
             for extra in ("none", "evaluated"):
